@@ -1,4 +1,5 @@
 import HeraProofs.Props.C17
+import HeraProofs.Props.C07
 open Hera
 #print axioms C17_token_in_quoted_line
 #print axioms C17_caret
@@ -7,3 +8,4 @@ open Hera
 #print axioms posAfter_eq
 #print axioms splitLines_get
 #print axioms C17_position_only_next_char
+#print axioms C17_token_is_text_at_offset
